@@ -226,6 +226,39 @@ def jump_side_fanin(times=1, max_jumps=None):
     )
 
 
+def loop_body_shapes(n):
+    """DAG shapes on n nodes (up to isomorphism) with exactly one root and one sink: the bodies of a loop."""
+    out = []
+    for shape in dag_shapes(n):
+        roots = [r for r, deps in shape if not deps]
+        used = {d for _r, deps in shape for d in deps}
+        sinks = [r for r, _d in shape if r not in used]
+        if len(roots) == 1 and len(sinks) == 1 and roots[0] != sinks[0]:
+            out.append((shape, roots[0], sinks[0]))
+    return out
+
+
+def jump_dag_loop(n, idx, times=1, max_jumps=None, order="fwd"):
+    """Loop whose body is the idx-th single-root/single-sink DAG on n nodes: the sink jumps back to the
+    root `times` times, then Z runs.  order: declaration order of the stages (fwd = topological, rev =
+    reversed, so that of two arms of unequal length either may be declared first)."""
+    shape, root, sink = loop_body_shapes(n)[idx]
+    wctx = {} if max_jumps is None else {"_max_jumps": max_jumps}
+    st = []
+    for r, deps in shape:
+        if r == sink:
+            tasks = [("t", {"kind": "jump", "target": root, "times": times, "out": _loop_out(r, root)})]
+        else:
+            tasks = [("t", {"kind": "ok", "out": _loop_out(r, root)})]
+        st.append(St(r, tuple(deps), tasks=tasks))
+    if order == "rev":
+        st.reverse()
+    st.append(St("Z", (sink,), tasks=[("t", {"kind": "ok", "out": _loop_out("Z", root)})]))
+    w = Workload(f"jump_dag_loop{n}_{idx}_t{times}_m{max_jumps}_{order}", st, wf_ctx=wctx)
+    w.loop_root, w.loop_sink = root, sink
+    return w
+
+
 def jump_forward_diamond(times=1):
     """A jumps forward to E over the diamond B,{C,D}->E' ... : A -> B -> (C, D) -> E -> F."""
     mk = lambda r: [("t", {"kind": "ok", "out": std_out(r)})]  # noqa: E731
@@ -324,6 +357,12 @@ def choice3():
 
 def suspend_gate():
     return Workload("gate", [St("A"), St("G", ("A",), tasks=[("t", {"kind": "suspend"})]), St("Z", ("G",))])
+
+
+def suspend_gate_n(need=2):
+    """The gate's task needs `need` signals and suspends once per signal."""
+    return Workload(f"gate{need}", [St("A"), St("G", ("A",), tasks=[("t", {"kind": "suspend_n", "need": need})]),
+                                    St("Z", ("G",))])
 
 
 def synthetic(fail_post=False):
